@@ -28,6 +28,9 @@ TWINS = [(f, o) for f, ops in (
     for o in ops]
 
 
+RELATED = [(m, l) for m in ("LDA", "LDX", "LDB", "STA", "JMP", "LEAX", "CMPU") for l in ("5", "$05", "$0005", "200", "$1234", "16", "128")]
+
+
 def setup(ctx):
     asmmon.install()
 
@@ -57,6 +60,10 @@ def gen_cases(tier, seed):
             v1, v2 = r.sample([1, 2, 5, 7, 100, 255, 256, 1000], 2)
             for mn, v, org in ((fam[0], v1, 0x1000), (fam[1], v2, 0x2000)):
                 texts.append(["V EQU %d\n" % v, " ORG $%X\n" % org, " RMB %d\n" % v, "L NOP\n", " %s %s\n" % (mn, opnd), " RTS\n"])
+        # the same literal under the same mnemonic in two syntactic roles (address vs index / PCR offset vs immediate)
+        mn, lit = RELATED[g % len(RELATED)]
+        for opnd in r.sample([lit, lit + ",X", lit + ",PCR", "#" + lit, "[" + lit + "]", "[" + lit + ",Y]", "<" + lit, ">" + lit], 4):
+            texts.append([" ORG $1000\n", " %s %s\n" % (mn, opnd), " RTS\n"])
         yield {"id": "group/%d" % g, "texts": texts}
     # include files that change between two assemblies in the same process (same name, same size, same second)
     for k in range(40 if thorough else 6):
